@@ -1953,10 +1953,12 @@ impl ToTokens for Query {
 
                                     )
                                 ),
-                                ::proto_vulcan::operator::conj::Conj::from_array(&[
-                                    #( ::proto_vulcan::GoalCast::cast_into( #body ) ),*
-                                ]),
-                                ::proto_vulcan::state::reify(::std::clone::Clone::clone(&__query__)),
+                                ::proto_vulcan::query::reified(
+                                    ::proto_vulcan::operator::conj::Conj::from_array(&[
+                                        #( ::proto_vulcan::GoalCast::cast_into( #body ) ),*
+                                    ]),
+                                    ::proto_vulcan::state::reify(::std::clone::Clone::clone(&__query__)),
+                                ),
                             ]),
                         )
                     )
